@@ -28,9 +28,60 @@ fn bres(r: Result<BOpinion<V>, InvalidValueError>) -> Out {
     }
 }
 
+/// Negation: belief and disbelief exchanged, base rate complemented (unchecked).
+fn bneg(w: &BOpinion<V>) -> BOpinion<V> {
+    BOpinion::<V>::new_unchecked(*w.d(), *w.b(), *w.u(), 1.0 - *w.a())
+}
+
+/// `ok L(4) R(4)`
+fn bok2(l: &BOpinion<V>, r: &BOpinion<V>) -> Out {
+    let mut s = String::new();
+    bdump(l, &mut s);
+    bdump(r, &mut s);
+    Out::Ok(s)
+}
+
+fn op_blaw(ints: &[i64], sc: &[V]) -> Out {
+    need!(ints.len() == 1 && sc.len() == 12);
+    let (x, y, z) = (bop(&sc[..4]), bop(&sc[4..8]), bop(&sc[8..]));
+    let (l, r) = match ints[0] {
+        0 => (x.mul(&y), y.mul(&x)),
+        1 => (x.mul(&y).mul(&z), x.mul(&y.mul(&z))),
+        2 => (x.comul(&y), y.comul(&x)),
+        3 => (x.comul(&y).comul(&z), x.comul(&y.comul(&z))),
+        4 => (bneg(&x).comul(&bneg(&y)), bneg(&x.mul(&y))),
+        5 => (bneg(&x).mul(&bneg(&y)), bneg(&x.comul(&y))),
+        _ => return Out::Unsup,
+    };
+    bok2(&l, &r)
+}
+
+fn op_bdeduce_sym(ints: &[i64], sc: &[V]) -> Out {
+    need!(ints.len() == 1 && sc.len() == 11);
+    let x = bop(&sc[..4]);
+    let (c0, c1, ay) = (&sc[4..7], &sc[7..10], sc[10]);
+    let (l, r) = match ints[0] {
+        0 => (
+            x.deduce(&[bsx(c0), bsx(c1)], ay),
+            bneg(&x).deduce(&[bsx(c1), bsx(c0)], ay),
+        ),
+        1 => {
+            let sw = |c: &[V]| bsx(&[c[1], c[0], c[2]]);
+            (
+                bneg(&x.deduce(&[bsx(c0), bsx(c1)], ay)),
+                x.deduce(&[sw(c0), sw(c1)], 1.0 - ay),
+            )
+        }
+        _ => return Out::Unsup,
+    };
+    bok2(&l, &r)
+}
+
 fn op_bi(op: &str, var: &[&str], ints: &[i64], sc: &[V]) -> Out {
     let has = |t: &str| var.iter().any(|v| *v == t);
     match op {
+        "blaw" => op_blaw(ints, sc),
+        "bdeduce_sym" => op_bdeduce_sym(ints, sc),
         "bsimplex_new" => {
             need!(ints.is_empty() && sc.len() == 3);
             let r = if has("try") {
